@@ -213,6 +213,9 @@ func setupDirs(w *simrt.World) {
 
 const baseConfigPath = "/sim/base/config.yaml"
 
+// stopForgottenAfter: no injected stall or latency keeps an acknowledged stop from taking effect for this long.
+const stopForgottenAfter = 20 * time.Second
+
 func dagPath(spec *DagSpec) string { return path.Join(dagsDir, spec.File+".yaml") }
 
 func seedIDs(tp *simrt.Tape) {
@@ -1272,6 +1275,30 @@ func (c *stepCheck) checkOutcome(runsBy map[string][]*StepRun, finalBy map[strin
 		allowed["failed"] = true
 	default:
 		allowed["failed"] = true
+	}
+	// a stop that was acknowledged while steps were still to be started must not be forgotten: a step that
+	// starts long after the acknowledgement (beyond any injected stall of the goroutine that carries the stop)
+	// in a run that is then not reported canceled means the stop was dropped
+	if stopped && reported != "canceled" {
+		var acceptedAt time.Duration = -1
+		for _, e := range c.res.Events {
+			if e.Kind == "stop_accepted" && (acceptedAt < 0 || e.At < acceptedAt) {
+				acceptedAt = e.At
+			}
+		}
+		if acceptedAt >= 0 {
+			for name, rs := range runsBy {
+				if strings.HasPrefix(name, "on_") {
+					continue
+				}
+				for _, r := range rs {
+					if r.StartAt > acceptedAt+stopForgottenAfter {
+						c.viol("C04", "stop-accepted-but-run-completed", c.sc.StopVia+"-as-"+reported, "the stop was acknowledged at %v, yet step %s was started %v later and the run is reported %q", acceptedAt, name, r.StartAt-acceptedAt, reported)
+						return
+					}
+				}
+			}
+		}
 	}
 	if !allowed[reported] {
 		var al []string
